@@ -75,22 +75,22 @@ def cases(tier, seed):
     dims = _dims(d)
     if tier == "quick":
         for cell, dev in explore.cells(dims, 1):
-            out.append(dict(cell, d=d))
+            out.append(dict(cell, d=d, dev=dev))
         base = {k: v[0] for k, v in dims.items()}
         for cls in dims["cls"]:
             for key in ("sig", "norm", "bias", "flags"):
                 for val in dims[key]:
-                    out.append(dict(base, d=d, cls=cls, **{key: val}))
-            out.append(dict(base, d=d, cls=cls, sig="svp", norm=True))
+                    out.append(dict(base, d=d, cls=cls, dev=2, **{key: val}))
+            out.append(dict(base, d=d, cls=cls, sig="svp", norm=True, dev=3))
         for cls in ("ResNet", "UNet"):
-            out.append(dict({k: v[0] for k, v in _dims(3).items()}, d=3, cls=cls))
+            out.append(dict({k: v[0] for k, v in _dims(3).items()}, d=3, cls=cls, dev=1))
     else:
         for cell, dev in explore.cells(dims, 2):
-            out.append(dict(cell, d=d))
+            out.append(dict(cell, d=d, dev=dev))
         for cell, dev in explore.cells(_dims(3), 1):
-            out.append(dict(cell, d=3))
+            out.append(dict(cell, d=3, dev=dev + 1))
     out = [_normalise(c) for c in out]
-    out = explore.dedupe(out, lambda c: repr(sorted(c.items(), key=lambda kv: kv[0])))
+    out = explore.dedupe(out, lambda c: repr(sorted(((k, v) for k, v in c.items() if k != "dev"), key=lambda kv: kv[0])))
     for c in out:
         c["cost"] = (3 if c["cls"] in ("DilResNet", "UNet") else 1) * (12 if c["d"] == 3 else 1)
         c["grp"] = f"{c['d']}/{c['bank']}/{c['cls']}"
@@ -118,7 +118,7 @@ def run_case(case, seed):
     D = case["d"]
     sp = tuple(case["ext"])
     flags = _flags(case)
-    ckey = repr(sorted(case.items()))
+    ckey = repr(sorted((k, v) for k, v in case.items() if k not in ("dev", "cost", "grp")))
     rng = rng_for(seed, "C07", ckey)
     v = []
     try:
